@@ -16,6 +16,12 @@ def main():
     name = sys.argv[1]
     repo = sys.argv[sys.argv.index('--repo') + 1] if '--repo' in sys.argv else '/repo'
     jobs = int(sys.argv[sys.argv.index('-j') + 1]) if '-j' in sys.argv else 8
+    res = run_selftest(name, repo, jobs, verbose=True)
+    print('selftest %s: %d targets, %d with problems' % (name, res['targets'], len(res['problems'])))
+
+
+def run_selftest(name, repo='/repo', jobs=8, verbose=False, only_fns=None):
+    """returns dict(targets=int, refuted=int (obligations that came back failed), problems=[{target, status, missing, unregistered}])"""
     u = load_unit(name)
     g = generate(u, repo)
     text = g.text
@@ -61,17 +67,23 @@ def main():
         status = out['status']
         return key, want, failed, status, out['undecided'][:2]
 
-    holes = 0
+    problems = []
+    refuted = 0
+    items = sorted(targets.items())
+    if only_fns is not None:
+        items = [it for it in items if it[0].replace(' [loops]', '') in only_fns or it[0].startswith('<trait-contract>::')]
     with cf.ThreadPoolExecutor(max_workers=jobs) as ex:
-        for key, want, failed, status, und in ex.map(run, sorted(targets.items())):
+        for key, want, failed, status, und in ex.map(run, items):
             miss = sorted(want - failed)
             unreg = sorted(f for f in failed if f not in g.obligations)
+            refuted += len(want & failed)
             if not want and key.startswith('<trait-contract>::'):
                 continue
             if status in ('error', 'rlimit') or miss or unreg or not want:
-                holes += 1
-                print('TARGET', key, 'status', status, 'registered', len(want), 'missing', miss, 'unregistered', unreg, und)
-    print('selftest %s: %d targets, %d with problems' % (name, len(targets), holes))
+                problems.append(dict(target=key, status=status, missing=miss, unregistered=unreg))
+                if verbose:
+                    print('TARGET', key, 'status', status, 'registered', len(want), 'missing', miss, 'unregistered', unreg, und)
+    return dict(targets=len(items), refuted=refuted, problems=problems)
 
 
 if __name__ == '__main__':
